@@ -141,11 +141,13 @@ def local_closure(pid):
     return files
 
 
-def theorem_names(pid):
-    """Fully qualified names of every `theorem` in the property file and in its lemma files
-    lean/TwistedProps/<pid>/*.lean (statements live in the former)."""
+def theorem_names(pid, lemmas=False):
+    """Fully qualified names of every `theorem` in the property file (the statements live there) and, with
+    `lemmas` (thorough tier), in its lemma files lean/TwistedProps/<pid>/*.lean as well.  `#print axioms` is
+    transitive, so the quick audit of the property file already covers every lemma it uses."""
     files = [LEAN / "TwistedProps" / f"{pid}.lean"]
-    files += [f for f in local_closure(pid) if f.parent == LEAN / "TwistedProps" / pid]
+    if lemmas:
+        files += [f for f in local_closure(pid) if f.parent == LEAN / "TwistedProps" / pid]
     names = []
     for f in files:
         names += _theorem_names_in(f)
@@ -177,7 +179,7 @@ def audit(pid, thorough=False):
     for f in files:
         for m in FORBIDDEN.finditer(strip_comments(f.read_text())):
             problems.append(f"forbidden token {m.group(0).strip()!r} in {f.relative_to(LEAN)}")
-    names = theorem_names(pid)
+    names = theorem_names(pid, lemmas=thorough)
     (LEAN / "Audit").mkdir(exist_ok=True)
     af = LEAN / "Audit" / f"{pid}.lean"
     af.write_text(f"import {prop_module_name(pid)}\n" + "".join(f"#print axioms {n}\n" for n in names))
